@@ -205,6 +205,41 @@ end
 def setLocal (locals : List (String × Val)) (n : String) (v : Val) : List (String × Val) :=
   (n, v) :: locals.filter (fun p => p.1 != n)
 
+/-! ### specification-level sub-routines
+
+  `set_usr_field(bundle, FIELD, v)` is read at the level of its specification: it writes the 32-bit value `v` to an
+  abstract cell of the machine state named after the field (`"usr:" ++ FIELD`, kept in `new`/`written` like an operand
+  slot).  The compiled body of `hex_set_usr_field` itself (a `deposit64` into the USR register through `REGFIELD`)
+  is NOT interpreted here; it keeps being checked per output only (sort / well-formedness / ownership).
+  `Val.ext` carries no payload, so the field is read from the SYNTAX of the pass-through argument. -/
+
+def usrCell (field : String) : String := "usr:" ++ field
+
+/-- the identifier a pass-through (non-IL) argument consists of: `bundle`, `HEX_REG_FIELD_USR_OVF`
+    (`.param` is what reading the emitted text gives, `.ext (.id _)` what the lowering model builds) -/
+def extName : ILPure → Option String
+  | .param n => some n
+  | .ext (.id n) => some n
+  | _ => none
+
+/-- the write of `v` (32 bit) to the abstract cell of `field`.  A value of another sort is outside this reading
+    (`undef`, not a sort error of the IL: the prototype of the routine is checked per output by `wfEffect` against
+    the signature of the compiled body). -/
+def writeUsr (σ : MState) (field : String) (v : Val) : Except Stuck MState :=
+  match v with
+  | .bv w x =>
+      if w = 32 then
+        .ok { σ with new := fun k => if k == usrCell field then x.toNat else σ.new k,
+                     written := fun k => if k == usrCell field then true else σ.written k }
+      else .error (.undef "set_usr_field: value is not 32 bit wide")
+  | _ => .error (.undef "set_usr_field: value is not a bit-vector")
+
+/-- `hex_set_usr_field(bundle, FIELD, v)` on evaluated arguments -/
+def setUsrFieldIL (σ : MState) (args : List ILPure) (vs : List Val) : Except Stuck MState :=
+  match args.map extName, vs with
+  | [_, some n, _], [_, _, v] => writeUsr σ n v
+  | _, _ => .error (.undef "set_usr_field: argument list")
+
 /-- Compiled sub-routine bodies: name ↦ (parameter names, body). -/
 abbrev SubEnv := List (String × (List String × ILEffect))
 
@@ -256,7 +291,10 @@ def execIL (ms : MacroSem) (subs : SubEnv) : Nat → ILEffect → MState → Exc
           | some (ps, body) => do
               let σ' ← execIL ms subs fuel body { σ with params := ps.zip vs }
               .ok { σ' with params := σ.params }
-          | none => .error (.undef f)
+          | none =>
+              -- no compiled body supplied: the specification-level routines
+              if f == "hex_set_usr_field" then setUsrFieldIL σ args vs
+              else .error (.undef f)
         else if f == "HEX_STORE_SLOT_CANCELLED" then
           .ok { σ with locals := setLocal σ.locals "$slot_cancelled" (.bool true) }
         else if f == "HEX_GET_NPC" then
